@@ -24,6 +24,7 @@ JOBS = [
     Job("set-like", "C07.cpp", ["HLO=4", "HHI=4", "LMAX=2"], thorough_defines=["HLO=4", "HHI=4", "LMAX=3"], budget_s=300, thorough_budget_s=3000, desc="contains/containsAll/union/intersection/difference/same-elements/extend/which/rep/append"),
     Job("seq-fdr", "C07.cpp", ["HLO=5", "HHI=5", "LMAX=3"], budget_s=200, desc="sequence generation"),
     Job("fdr", "C07.cpp", ["HLO=8", "HHI=8", "LMAX=3"], thorough_defines=["HLO=8", "HHI=8", "LMAX=4"], budget_s=200, thorough_budget_s=1000, desc="false-discovery-rate adjustment r = p.n/rank"),
+    Job("weighted-statistics", "C07.cpp", ["HLO=10", "HHI=10", "LMAX=3"], budget_s=400, desc="weighted mean, covariance, variance, standard deviation and correlation for every combination of the unbiased / normalise-weights flags, lengths 2..3, any positive weights"),
     Job("entropy-mutual-information", "C07.cpp", ["HLO=9", "HHI=9", "LMAX=3"], thorough_defines=["HLO=9", "HHI=9", "LMAX=4"], env={"SYM_LOG_ATOMS": "1"}, budget_s=300, thorough_budget_s=2000, desc="shannon (frequencies, any base), shannonDiscrete and miDiscrete (samples of length 1..3 (4), every equality pattern): definitions through value counts, MI = H(X)+H(Y)-H(X,Y), symmetry, MI(X,X)=H(X), length mismatch refused; logarithms of count ratios are exact atoms and both sides are compared as products of integer powers"),
     Job("log-domain", "C07.cpp", ["HLO=6", "HHI=6", "LMAX=3"], thorough_defines=["HLO=6", "HHI=6", "LMAX=4"], budget_s=300, thorough_budget_s=3000, spurious_possible=True, desc="log-sum-exp family: bounds, exp-view equals the sum, shift-equivariance, weighted forms, pairwise log-sum (axiomatised exp/log)"),
     Job("log-special-values", "C07.cpp", ["HLO=7", "HHI=7", "LMAX=3"], thorough_defines=["HLO=7", "HHI=7", "LMAX=4"], budget_s=300, thorough_budget_s=3000, desc="log-domain reductions with -inf/+inf entries: never NaN, log-zeros give log-zero, finite terms give a finite result"),
